@@ -192,6 +192,7 @@ class Run:
 
 def confirm(pid, path):
     env = dict(os.environ)
+    env.pop("VERIF_RUNDIR", None)
     p = subprocess.run([common.PYTHON, "-m", "mc.run", pid, "--replay", path, "--confirm"],
                        cwd=common.VERIF_ROOT, env=env, capture_output=True, text=True)
     return p.returncode == 1
@@ -211,6 +212,8 @@ def main(argv=None):
     os.environ.setdefault("PYTHONHASHSEED", "0")
     os.environ.setdefault("LC_ALL", "C.UTF-8")
     os.environ.setdefault("PYTHONUTF8", "1")
+    from . import pipeline
+    pipeline.tmpdir()   # fixes VERIF_RUNDIR before workers are forked; removed at exit
     try:
         common.bind_impl()
         drv = load_driver(a.pid)
@@ -241,6 +244,8 @@ def main(argv=None):
         return 2
     finally:
         common.close_pool()
+        import shutil
+        shutil.rmtree(os.environ.get("VERIF_RUNDIR", "/nonexistent"), ignore_errors=True)
 
 
 if __name__ == "__main__":
